@@ -131,13 +131,30 @@ def run_conn(ctx, prop):
     if other:
         ctx.notes.append("violations of invariants owned by the sibling property were seen: %s" % sorted({v[1] for v in other}))
     ctx.log("monitor: %s; violations mine=%d other=%d" % (stats, len(mine), len(other)))
-    if not quick:
-        # race detector build: a data race inside the connection code is reported by C17; here it only must not crash
-        pass
+    # ---- strict conformance of small scenarios to Conn.tla's actions (binds the model to the code)
+    for f in files:
+        os.rename(f, f + ".big")
+    cfiles, ccrashed, _ = drive(ctx, nscen=16 if quick else 64, callers=3, percall=5)
+    acc, drifted, skipped, rejected, propviol = conformance(ctx, cfiles)
+    ctx.log("conformance to Conn.tla: accepted=%d (with discipline drift %d) skipped=%d rejected=%d invariant violations=%d" % (
+        acc, drifted, skipped, len(rejected), len(propviol)))
+    for path, inv, at, evs in propviol[:10]:
+        if inv in KINDS[prop]:
+            kindconn = [e for e in evs if e["ev"] == "env_conn"][0]
+            ctx.violation("conf-" + inv, "%s of Conn.tla is violated in the behaviour reconstructed from a recorded execution "
+                          "(scenario kind %s, protocol %s), near %s" % (inv, kindconn.get("kind"), kindconn.get("proto"), json.dumps(at)),
+                          dict(trace=[{k: x for k, x in e.items() if k not in ("dump", "bytes")} for e in evs]))
+    if rejected:
+        ctx.add_drift("%d of %d recorded executions are not behaviours of Conn.tla (first: %s line %d: %s); the property "
+                      "invariants were still evaluated on them by the monitor" % (
+                          len(rejected), len(rejected) + acc, os.path.basename(rejected[0][0]), rejected[0][1], json.dumps(rejected[0][2])))
+    if drifted:
+        ctx.add_drift("%d recorded executions follow Conn.tla except for the release-after-error decision" % drifted)
     sample = vf.read_ndjson(files[0])[:60] if files else []
     ctx.cov = dict(
         states=sum(r.distinct for _, r in mres), transitions=sum(r.generated for _, r in mres),
-        traces_validated_against_impl=stats["traces"], requests_executed=stats["calls"], events_validated=stats["events"],
+        traces_validated_against_impl=stats["traces"] + acc, traces_conforming_to_model=acc, traces_rejected_by_model=len(rejected),
+        requests_executed=stats["calls"], events_validated=stats["events"],
         model_configs=[dict(cfg=n, distinct=r.distinct, generated=r.generated, depth=r.depth) for n, r in mres],
         model_mutants_rejected=muts,
         samples=[dict(kind="recorded execution (first 60 events)", events=[
@@ -148,3 +165,95 @@ def run_conn(ctx, prop):
         "bounded model: 2 requests x 2 stream ids with every fault kind (3 requests in the thorough tier)",
         "timing: late answers arrive within 70 ms after the 40 ms driver timeout; watchdogs at 8 s",
     ]
+
+
+# ---------------------------------------------------------------- strict conformance to Conn.tla
+
+CONF_DROP = {"obs_started", "obs_finished", "obs_abandoned", "avail", "wire", "frame_exp", "env_cancel", "env_failwrite",
+             "written", "closed_ret", "env_extclose_ret", "env_conn", "n_readerr", "env_unsettled", "env_stuck",
+             "w_sem", "w_release", "q_enq", "f_flush", "f_ret"}
+CONF_FIELDS = dict(ev="", seq=0, req="", stream=0, a=0, err="none", wn=0, werr="none")
+
+
+def project_for_conformance(events):
+    """Projection of one scenario's log for Trace_Conn.tla (no state is guessed: fields are copied,
+    x_wbegin is annotated with the result its own x_wend line reports later)."""
+    conn = [e for e in events if e["ev"] == "env_conn"]
+    if not conn:
+        return None, "no env_conn"
+    if sum(1 for e in events if e["ev"] == "call") > 60:
+        return None, "too many requests for the conformance pass (stream exhaustion scenario)"
+    cid, start = conn[0]["conn"], conn[0]["seq"]
+    out = []
+    evs = [e for e in events if e["seq"] > start]
+    for i, e in enumerate(evs):
+        ev = e["ev"]
+        if ev == "avail":
+            break
+        if ev in CONF_DROP:
+            continue
+        if "conn" in e and e["conn"] != cid and not ev.startswith("n_"):
+            continue
+        r = dict(CONF_FIELDS, ev=ev, seq=e["seq"])
+        if ev.startswith("n_"):
+            if ev in ("n_recv", "n_send"):
+                r["stream"] = e["stream"]
+                r["req"] = "q" + e["tok"].split("_")[1]
+            elif ev == "n_unsol":
+                r["stream"] = e["stream"]
+        else:
+            rq = e.get("req", 0)
+            if rq < 0:
+                return None, "internal request (heartbeat) in the trace"
+            r["req"] = ("q%d" % rq) if rq > 0 else ""
+            r["stream"] = e.get("stream", 0)
+            r["a"] = e.get("a", 0)
+            r["err"] = e.get("err", "none")
+            if ev in ("r_hdr", "r_lookup", "r_closed", "r_discard"):
+                r["stream"] = e.get("a", 0)
+            if ev == "x_wbegin":
+                nxt = [x for x in evs[i + 1:] if x["ev"] == "x_wend" and x.get("req") == e["req"] and x.get("conn") == cid]
+                if not nxt:
+                    return None, "x_wbegin without x_wend"
+                r["wn"], r["werr"] = nxt[0]["a"], nxt[0]["err"]
+        out.append(r)
+    return out, None
+
+
+def conformance(ctx, files):
+    """Validate each scenario log against Conn.tla's actions. Returns (accepted, drifted, skipped, rejected list,
+    property violations list)."""
+    acc = drifted = skipped = 0
+    rejected, propviol = [], []
+
+    def one(path):
+        evs = vf.read_ndjson(path)
+        proj, why = project_for_conformance(evs)
+        if proj is None:
+            return path, None, why, evs, None
+        cp = path.replace(".ndjson", ".conf.ndjson")
+        vf.write_ndjson(cp, proj)
+        r = vf.run_tlc(ctx, "Trace_Conn", "Trace_Conn.cfg", workers=1, heap="3g", timeout=900, env={"VF_TRACE": cp},
+                       deadlock=False, dfs=True, name="conf_" + os.path.basename(path), quiet=True)
+        return path, r, None, evs, proj
+
+    with cf.ThreadPoolExecutor(vf.NCPU) as ex:
+        for path, r, why, evs, proj in ex.map(one, files):
+            if r is None:
+                skipped += 1
+                continue
+            hw = re.search(r'<<"HIGHWATER", (\d+)>>', r.out)
+            dr = re.search(r'<<"DRIFT", (\d+)>>', r.out)
+            if r.violated == "NotAccepted":
+                acc += 1
+                if dr and int(dr.group(1)) > 0:
+                    drifted += 1
+            elif r.violated and r.violated != "deadlock":
+                at = proj[int(hw.group(1)) - 2] if hw and 1 < int(hw.group(1)) <= len(proj) + 1 else None
+                propviol.append((path, r.violated, at, evs))
+            elif r.ok:
+                k = int(hw.group(1)) if hw else 0
+                rejected.append((path, k, proj[k - 1] if 0 < k <= len(proj) else None))
+            else:
+                raise vf.Inconclusive("Trace_Conn failed on %s: %s\n%s" % (path, r.error, r.out[-2000:]))
+    return acc, drifted, skipped, rejected, propviol
